@@ -1,5 +1,5 @@
 (** * C04 - Interrupted operations resume to the same result; seed fixed by the first call. *)
-From LP Require Import Proofs.Tactics Proofs.Loop Proofs.Resume Proofs.Resume2 Proofs.Resume3 Proofs.Resume4 Proofs.Confirm Proofs.Interleave Proofs.LifecycleNoisy Proofs.Examples.
+From LP Require Import Proofs.Tactics Proofs.Loop Proofs.Resume Proofs.Resume2 Proofs.Resume3 Proofs.Resume4 Proofs.Confirm Proofs.Interleave Proofs.InterleaveGt Proofs.LifecycleNoisy Proofs.Examples.
 Open Scope N_scope.
 
 (** The loop law: a run interrupted with budget [b1] and resumed with [b2] equals one run with
@@ -71,6 +71,16 @@ Theorem C04_select_noise : forall (H : list N -> list N) wa wk e b wf x,
                            select_winners H e b wq = Ok (wpure, x) /\ wf = Uw su cs wpure.
 Proof. exact select_noisy_complete. Qed.
 
+(** the distribution step: the same with the full transform (the v1 family does not look at the pause
+    flag, so its calls may even happen while the contract is paused; gt2 is gated) *)
+Theorem C04_distribute_noise : forall (H : list N -> list N) v2 wa wp su0 cs0 p0 wk e b wf x,
+  noisyT (distribute_guaranteed_tickets H v2) wa wk -> wa = Tw su0 cs0 p0 wp ->
+  (v2 = true -> paused (st wp) = false) -> open_flags wp ->
+  distribute_guaranteed_tickets H v2 e b wk = Ok (wf, x) ->
+  exists l wq su cs p wpure, after_interrupted (distribute_guaranteed_tickets H v2) l wp = Some wq /\
+                             distribute_guaranteed_tickets H v2 e b wq = Ok (wpure, x) /\ wf = Tw su cs p wpure.
+Proof. exact distribute_noisy_complete. Qed.
+
 (** a resumed selectWinners neither reads nor consumes the fresh randomness of its own call *)
 Theorem C04_select_seed_fixed : forall (H : list N -> list N) e b w r p sd,
   op (st w) = OpSelect r p ->
@@ -108,6 +118,7 @@ Print Assumptions C04_secondary.
 Print Assumptions C04_noise_calls.
 Print Assumptions C04_filter_noise.
 Print Assumptions C04_select_noise.
+Print Assumptions C04_distribute_noise.
 Print Assumptions C04_select_seed_fixed.
 Print Assumptions C04_completes.
 Print Assumptions C04_nonvacuous.
